@@ -3,10 +3,63 @@ import sys
 from .ref import hkdf, numth, edwards, golden
 
 
+_FAKE = '''
+L1 = None
+L2 = None
+count = [0]
+def inc():
+    with L1:
+        v = count[0]
+        v = v + 1
+        count[0] = v
+    return v
+def racy():
+    v = count[0]
+    v = v + 1
+    count[0] = v
+    return v
+def ab():
+    with L1:
+        with L2:
+            return 1
+def ba():
+    with L2:
+        with L1:
+            return 1
+'''
+
+
+def sched_selftest():
+    """the thread-schedule explorer on a 20-line fake library: finds the lost update of an unlocked counter, finds none under a
+    (cooperative) lock, and reports a lock-order inversion as a deadlock outcome instead of hanging"""
+    import tempfile, os, importlib.util
+    from . import sched
+    with tempfile.TemporaryDirectory() as d:
+        path = os.path.join(d, "fakelib.py")
+        open(path, "w").write(_FAKE)
+
+        def load():
+            spec = importlib.util.spec_from_file_location("fakelib", path)
+            m = importlib.util.module_from_spec(spec)
+            spec.loader.exec_module(m)
+            m.L1, m.L2 = sched.CoopLock(), sched.CoopLock()
+            return m
+        out = {}
+        for name, pick in (("inc", lambda m: [m.inc, m.inc]), ("racy", lambda m: [m.racy, m.racy]), ("abba", lambda m: [m.ab, m.ba])):
+            seen = set()
+            n = sched.explore(lambda: pick(load()), 2, d, lambda res, run: seen.add(tuple(r[1] for r in res)))
+            out[name] = (n, seen)
+        assert out["inc"][1] == {(1, 2), (2, 1)}, out["inc"]
+        assert (1, 1) in out["racy"][1], out["racy"]
+        assert ("Deadlock", "Deadlock") in out["abba"][1] and (1, 1) in out["abba"][1], out["abba"]
+    return True
+
+
 def main():
     assert hkdf.selftest() and numth.selftest() and edwards.selftest()
     g = golden.load()
     assert len(g["vectors"]) == 24
+    assert sched_selftest()
     print("mc selftest ok")
     return 0
 
